@@ -30,6 +30,10 @@ CONDS = [
     Cond('attr_meta_ok', 'regular-expression metacharacters as attribute operands for every operator (plain, in :not, in :is, '
          'with i flag): compile succeeds and the selector matches the operand literally',
          '22 operands x 7 operators x 4 forms', timeout={'quick': 60, 'thorough': 120}),
+    Cond('odd_inputs_ok', 'odd but (nearly) tokenizable patterns — empty functional arguments, dangling operators, stray '
+         'brackets, quotes, comments, NUL, surrogates, upper-case forms — x 18 custom maps (empty, self-referential, cyclic, '
+         'malformed names / definitions): documented errors only', '150 patterns x 18 maps', timeout={'quick': 100, 'thorough': 300},
+         parts={'quick': 1, 'thorough': 2}),
     Cond('long_numbers_ok', 'digit runs of 5 .. 6000 characters (past the 4300-digit int conversion limit) in An+B terms, '
          'attribute values, ids and :lang arguments compile or raise a documented error',
          '6 lengths x 9 forms (enumerated by symbolic index)', timeout={'quick': 60, 'thorough': 120}),
